@@ -43,7 +43,7 @@ declarations:
   doxygen:
     brief: |-
       The label of the library,
-      on two lines.
+      on two lines, the second of which is long and holds a tab character\tbetween two of its words.
     description: |-
       A description whose last line
       has no line end.
